@@ -344,18 +344,30 @@ def evaluate_reading(spec, observed):
                                       f"required {len(E)} {[_fmt_text(e['lines'], False) for e in E][:6]}")]
     return results, WEIGHT["subtitle-set"] + 30 * abs(len(E) - len(O))
   results["subtitle-set"] = [None]
-  # pairing is order-independent: repeatedly take the (expected, observed) pair with the fewest failing contracts
-  cmp = {(i, j): compare_paragraph(e, o, spec) for i, e in enumerate(E) for j, o in enumerate(O)} if len(E) <= 8 else None
+  # pairing is order-independent: perfect matches in file order first, then repeatedly the (expected, observed) pair with the
+  # fewest failing contracts
   pairs = []
-  if cmp is None:
-    pairs = [compare_paragraph(e, o, spec) for e, o in zip(E, O)]
-  else:
-    left_e, left_o = set(range(len(E))), set(range(len(O)))
+  left_e, left_o = list(range(len(E))), list(range(len(O)))
+  for i in list(left_e):
+    if i in left_o:
+      r = compare_paragraph(E[i], O[i], spec)
+      if _score(r) == 0:
+        pairs.append(r)
+        left_e.remove(i)
+        left_o.remove(i)
+  if left_e:
+    cmp = {(i, j): compare_paragraph(E[i], O[j], spec) for i in left_e for j in left_o}
+    for i in list(left_e):
+      j = next((j for j in left_o if _score(cmp[(i, j)]) == 0), None)
+      if j is not None:
+        pairs.append(cmp[(i, j)])
+        left_e.remove(i)
+        left_o.remove(j)
     while left_e:
       i, j = min(((i, j) for i in left_e for j in left_o), key=lambda ij: (_score(cmp[ij]), abs(ij[0] - ij[1]), ij))
       pairs.append(cmp[(i, j)])
-      left_e.discard(i)
-      left_o.discard(j)
+      left_e.remove(i)
+      left_o.remove(j)
   n = 0
   for r in pairs:
     n += _score(r)
@@ -998,7 +1010,7 @@ def main():
   args = parse_args()
   QUICK = args.tier == "quick"
   SEED = args.seed
-  per = 560 if QUICK else 9000
+  per = 560 if QUICK else 3500
   jobs = [("sweeps", k) for k in range(4)] + [(i, per) for i in range(12 if QUICK else 60)]
   rec = Recorder("C09", "generated EBU STL files (GSI x TTI sequences x reader configurations) and exhaustive code-table / "
                  "label-boundary / VP sweeps through ttconv.stl.reader.to_model, against specs/stl.py",
